@@ -238,7 +238,7 @@ func (m *BVM) buildSurface(c *Contract) {
 // FilterExcludes reports whether the dispatcher rejects entry e before its
 // body can run.
 func (m *BVM) FilterExcludes(e *Entry) bool {
-	if m.FilterStubNames && m.stubMethods[e.Name] {
+	if m.FilterStubNames && m.stubMethods[e.Name] && e.ViaIface {
 		return true
 	}
 	if m.FilterResultType && !e.WellTyped {
@@ -317,10 +317,37 @@ func (m *BVM) checkDispatcher() {
 		if dom.Has(call) {
 			continue
 		}
-		if Mentions(ifi.Cond, callNamed("(reflect.Type).MethodByName")) && Mentions(ifi.Cond, typeIs("*"+StubIface)) {
+		// markers may sit in the condition itself or in the body of a module
+		// helper called by the condition (one level)
+		has := func(pred func(ssa.Value) bool) bool {
+			if Mentions(ifi.Cond, pred) {
+				return true
+			}
+			found := false
+			Mentions(ifi.Cond, func(v ssa.Value) bool {
+				c, ok := v.(*ssa.Call)
+				if !ok {
+					return false
+				}
+				g := c.Call.StaticCallee()
+				if g == nil || !m.P.InModule(g) {
+					return false
+				}
+				for _, gb := range g.Blocks {
+					for _, in := range gb.Instrs {
+						if val, ok := in.(ssa.Value); ok && Mentions(val, pred) {
+							found = true
+						}
+					}
+				}
+				return false
+			})
+			return found
+		}
+		if has(callNamed("(reflect.Type).MethodByName")) && has(typeIs("*"+StubIface)) {
 			m.FilterStubNames = true
 		}
-		if Mentions(ifi.Cond, callNamed("(reflect.Type).NumOut", "(reflect.Type).Out")) && Mentions(ifi.Cond, typeIs(RespType)) {
+		if has(callNamed("(reflect.Type).NumOut", "(reflect.Type).Out")) && has(typeIs(RespType)) {
 			m.FilterResultType = true
 		}
 	}
